@@ -9,6 +9,7 @@ import (
 	"io"
 	"net/http"
 	"strings"
+	"time"
 
 	"github.com/go-jose/go-jose/v3"
 	"go.opentelemetry.io/otel/trace"
@@ -313,6 +314,14 @@ func (f *Fosite) authorizeRequestFromPAR(ctx context.Context, r *http.Request, r
 
 	if err := storage.DeletePARSession(ctx, requestURI); err != nil {
 		return false, errorsx.WithStack(ErrServerError.WithWrap(err).WithDebug(err.Error()))
+	}
+
+	// The lifetime announced by the pushed authorization endpoint (expires_in) is recorded in the session of
+	// the stored request. A request_uri must not start an authorization after that instant.
+	if session := parRequest.GetSession(); session != nil {
+		if expiresAt := session.GetExpiresAt(PushedAuthorizeRequestContext); !expiresAt.IsZero() && expiresAt.Before(time.Now().UTC()) {
+			return false, errorsx.WithStack(ErrInvalidRequestURI.WithHint("The pushed authorization request has expired."))
+		}
 	}
 
 	// validate the clients match
